@@ -123,23 +123,10 @@ func init() {
 	// KF-samelabelset: operators that drop the metric name never check that the
 	// resulting vector has unique label sets; the reference fails such a query with
 	// "vector cannot contain metrics with the same labelset". The trigger is exactly
-	// that: the data holds two series that differ only in the metric name and the
-	// reference engine fails the input with this error.
-	kf.Register("ref-same-labelset-error", func(c *core.Case, expr parser.Expr) bool {
+	// that: the reference engine fails the input with this error. It needs a reference
+	// evaluation, so it is only consulted after a comparison failed (lazy trigger).
+	kf.RegisterLazy("ref-same-labelset-error", func(c *core.Case, expr parser.Expr) bool {
 		if expr == nil || c.Query == "" {
-			return false
-		}
-		seen := map[string]bool{}
-		collide := false
-		for _, s := range c.Series {
-			k := labels.NewBuilder(s.Lset()).Del(labels.MetricName).Labels(nil).String()
-			if seen[k] {
-				collide = true
-				break
-			}
-			seen[k] = true
-		}
-		if !collide {
 			return false
 		}
 		st := memstore.New(c.Series)
